@@ -162,7 +162,8 @@ func classifyDeath(caseIdx int, name string, stderr string, timedOut bool) resul
 			}
 		}
 	}
-	norm := regexp.MustCompile(`0x[0-9a-f]+|\d+`).ReplaceAllString(msg, "N")
+	norm := regexp.MustCompile(`"(\\.|[^"\\])*"`).ReplaceAllString(msg, `"..."`)
+	norm = regexp.MustCompile(`0x[0-9a-f]+|\d+`).ReplaceAllString(norm, "N")
 	if len(norm) > 120 {
 		norm = norm[:120]
 	}
